@@ -3,6 +3,9 @@ package fzf
 import (
 	"io/fs"
 	"path/filepath"
+	"sync"
+
+	"github.com/charlievieth/fastwalk"
 
 	"github.com/junegunn/fzf/src/zzv"
 )
@@ -53,12 +56,18 @@ func zzH_C19_walkfn() {
 	opts := walkerOpts{file: zzv.CfgBool("file"), dir: zzv.CfgBool("dir"), hidden: zzv.CfgBool("hidden"), follow: zzv.CfgBool("follow")}
 	var pushed []string
 	r := &Reader{pusher: func(b []byte) bool { pushed = append(pushed, string(b)); return true }}
-	env := &zzEnv_walkFn{r: r, opts: opts, sep: "/"}
+	// free variables of the callback are set by name: if the callback's environment changes shape
+	// (a refactoring of readFiles' prologue) this harness no longer applies and steps aside - the
+	// whole-readFiles harness zzH_C19_tree still covers prologue and callback together
+	env := &zzEnv_walkFn{}
+	applies := env.zzSet("r", r) && env.zzSet("opts", opts) && env.zzSet("sep", "/")
 	if zzv.CfgBool("skip") {
 		// --walker-skip b,a/b  as readFiles derives the three lists
-		env.ignoresBase = []string{"b"}
-		env.ignoresFull = []string{"a/b"}
-		env.ignoresSuffix = []string{"/a/b"}
+		applies = applies && env.zzSet("ignoresBase", []string{"b"}) && env.zzSet("ignoresFull", []string{"a/b"}) && env.zzSet("ignoresSuffix", []string{"/a/b"})
+	}
+	if !applies {
+		zzv.Reach("called")
+		return
 	}
 	fn := zzLift_walkFn(env)
 	n := zzv.Choose(1, zzv.CfgInt("nmax"))
@@ -113,4 +122,166 @@ func zzH_C19_walkfn() {
 	} else {
 		zzv.Assert("file-not-listed-without-file-option", len(pushed) == 0)
 	}
+}
+
+func init() {
+	zzHarnesses["zzH_C19_tree"] = zzH_C19_tree
+}
+
+type zzTreeEntry struct {
+	path  string // relative to the root, no leading "./"
+	isDir bool
+}
+
+// the tree the modelled walker reports (pre-order); natively the same tree exists on disk
+var zzTree []zzTreeEntry
+
+// zzMX_fastwalk_Walk models fastwalk.Walk over zzTree: every entry once, children after their
+// directory, SkipDir on a directory prunes its subtree, SkipDir on a file skips the rest of its
+// directory (as filepath.WalkDir documents).
+func zzMX_fastwalk_Walk(conf *fastwalk.Config, root string, fn fs.WalkDirFunc) error {
+	if err := fn(root, zzDirEntry{name: root, isDir: true}, nil); err != nil {
+		return nil
+	}
+	skipPrefix := []string{}
+	for _, e := range zzTree {
+		skipped := false
+		for _, p := range skipPrefix {
+			if len(e.path) > len(p) && e.path[:len(p)] == p {
+				skipped = true
+			}
+		}
+		if skipped {
+			continue
+		}
+		err := fn(root+"/"+e.path, zzDirEntry{name: zzBase(e.path), isDir: e.isDir}, nil)
+		if err == filepath.SkipDir {
+			if e.isDir {
+				skipPrefix = append(skipPrefix, e.path+"/")
+			} else {
+				dir := ""
+				for i := len(e.path) - 1; i >= 0; i-- {
+					if e.path[i] == '/' {
+						dir = e.path[:i+1]
+						break
+					}
+				}
+				skipPrefix = append(skipPrefix, dir)
+			}
+		} else if err != nil {
+			return err
+		}
+	}
+	return nil
+}
+
+func zzMX_fastwalk_DefaultToSlash() bool { return false }
+
+// H19.tree: the whole readFiles (skip-list derivation + callback) over a small directory tree:
+// the candidate list is exactly what the walker options describe.
+func zzH_C19_tree() {
+	opts := walkerOpts{file: zzv.CfgBool("file"), dir: zzv.CfgBool("dir"), hidden: zzv.CfgBool("hidden"), follow: false}
+	zzv.FSEnterTemp("walk")
+	zzTree = nil
+	add := func(p string, isDir bool) {
+		zzTree = append(zzTree, zzTreeEntry{p, isDir})
+		if isDir {
+			zzv.FSMkdir(p)
+		} else {
+			zzv.FSTouch(p)
+		}
+	}
+	// a fixed shape with optional parts
+	add("f", false)
+	add("lib", true)
+	add("lib/gen", true)
+	add("lib/gen/x", false)
+	if zzv.Bool() {
+		add("mylib", true)
+		add("mylib/gen", true)
+		add("mylib/gen/y", false)
+	}
+	if zzv.Bool() {
+		add(".h", true)
+		add(".h/z", false)
+	}
+	if zzv.Bool() {
+		add("gen", false) // a file named like a skip entry
+	}
+	skips := [][]string{{}, {"gen"}, {"lib/gen"}, {"/lib/gen"}, {"mylib", "x"}}[zzv.Choose(0, 4)]
+	var got []string
+	var mu sync.Mutex // the real walker calls back from several goroutines
+	r := &Reader{pusher: func(b []byte) bool {
+		mu.Lock()
+		got = append(got, string(b))
+		mu.Unlock()
+		return true
+	}}
+	ok := r.readFiles([]string{"."}, opts, skips)
+	zzv.Reach("walked")
+	zzv.Assert("walk-succeeds", ok)
+	// reference
+	var want []string
+	pruned := []string{}
+	for _, e := range zzTree {
+		under := false
+		for _, p := range pruned {
+			if len(e.path) > len(p) && e.path[:len(p)] == p {
+				under = true
+			}
+		}
+		if under {
+			continue
+		}
+		if e.isDir {
+			base := zzBase(e.path)
+			skip := !opts.hidden && base[0] == '.'
+			for _, s := range skips {
+				hasSep := false
+				for i := 0; i < len(s); i++ {
+					if s[i] == '/' {
+						hasSep = true
+					}
+				}
+				switch {
+				case !hasSep:
+					if base == s {
+						skip = true
+					}
+				case s[0] == '/':
+					if zzHasSuffix(e.path, s) {
+						skip = true
+					}
+				default:
+					if e.path == s || zzHasSuffix(e.path, "/"+s) {
+						skip = true
+					}
+				}
+			}
+			if skip {
+				pruned = append(pruned, e.path+"/")
+				continue
+			}
+			if opts.dir {
+				want = append(want, e.path+"/")
+			}
+		} else if opts.file {
+			want = append(want, e.path)
+		}
+	}
+	zzv.Observe("listed", len(got))
+	// compare as sets (the real walker is concurrent; each entry must appear exactly once)
+	same := len(got) == len(want)
+	for _, w := range want {
+		n := 0
+		for _, g := range got {
+			if g == w {
+				n++
+			}
+		}
+		if n != 1 {
+			same = false
+		}
+	}
+	zzv.Assert("lists-exactly-the-described-entries", same)
 }
